@@ -11,7 +11,7 @@ pub fn run(tier: Tier, seed: u64) {
         "zkchannels_crypto::proofs::{SignatureProofBuilder, CommitmentProofBuilder, SignatureRequestProofBuilder, RangeConstraintBuilder}::generate_*",
         "zkchannels_crypto::pointcheval_sanders::Signature::{blind_and_randomize, randomize}",
     ]);
-    eng::bound("two channels of one merchant; per channel establish + <= 1 payment (quick) / 2 payments (thorough) + close; every pair (customer-message atom, earlier atom in the merchant's view incl. public parameters) and every (message atom, secret held in the serialised customer state at send time)");
+    eng::bound("every random draw free (zero allowed); paths with at most one deviation from the shadow randomness inside the customer's message generation; two channels of one merchant; per channel establish + <= 1 payment (quick) / 2 payments (thorough) + close; every pair (customer-message atom, earlier atom in the merchant's view incl. public parameters) and every (message atom, secret held in the serialised customer state at send time)");
     eng::assumption("this is the necessary condition the property states (exact reuse / direct exposure), not zero-knowledge; values coinciding only for special randomness are not reuse: a pair is a violation when the two terms are equal for EVERY randomness (validity query)");
     history(seed, if tier == Tier::Quick { 1 } else { 2 });
 }
@@ -79,7 +79,10 @@ impl View {
             }
         }
         // one solver-confirmed witness for the whole batch of "differs" facts (constructive: the shadow assignment)
-        if !differ.is_empty() {
+        // (on a path that deviates from the shadow randomness the shadow assignment is not a model of the path: there only
+        //  the "equal for every randomness" queries above are meaningful)
+        let deviated = sx::with(|a| a.decisions.iter().any(|d| d.outcome != d.shadow));
+        if !differ.is_empty() && !deviated {
             let sample: Vec<F> = differ.iter().step_by((differ.len() / 400).max(1)).cloned().collect();
             if !matches!(eng::witness(&format!("C14 {}: {} atom pairs differ (witness; {} checked natively, {} in the solver query)", what, differ.len(), differ.len(), sample.len()), &eng::hyps(), &F::and(sample)), Tri::Yes) {
                 eng::inconclusive(&format!("C14 {}: the batch witness was not confirmed", what));
@@ -103,6 +106,10 @@ fn secrets_of<T: Serialize>(what: &str, state: &T) -> Vec<Seen> {
 
 /// response scalar z answers for secret s under challenge c: the mask z - c*s must be neither zero nor a value in view
 fn masks(view: &View, what: &str, c: Scalar, pairs: Vec<(String, Scalar, Scalar)>) {
+    // posed on the path that follows the shadow randomness (where the shadow assignment is the ready-made counterexample)
+    if sx::with(|a| a.decisions.iter().any(|d| d.outcome != d.shadow)) {
+        return;
+    }
     for (nm, zz, s) in pairs {
         let mask = zz - c * s;
         if eng::valid_unexpected(&format!("C14 {}: response {} is unmasked (z = c*secret) for every randomness?", what, nm), &eng::hyps(), &is_z(mask)) {
@@ -139,7 +146,16 @@ fn last_challenge(label: &str) -> Scalar {
 }
 
 fn history(seed: u64, payments: usize) {
-    sx::begin(vec![], DrawMode::NonDegenerate, seed);
+    // every draw is free (a re-randomiser may be zero): one deviation from the shadow randomness per path, on the
+    // customer's own code (branches inside message generation, e.g. "skip the re-randomisation if ...")
+    let st = explore(DrawMode::Free, seed, 1, 200, &["cust:requested", "cust:start", "cust:close"], |_p| history_path(seed, payments));
+    eng::note(&format!("C14: {} paths over the customer's message-generation branches (truncated={})", st.paths, st.truncated));
+    for (p, m) in st.panics {
+        eng::inconclusive(&format!("C14 history panicked on path {:?}: {}", p, m));
+    }
+}
+
+fn history_path(seed: u64, payments: usize) {
     let mut rng = SeedRng::new(seed);
     let w = world(&mut rng);
     let (ctx, pctx) = (Context::new(b"e"), Context::new(b"p"));
@@ -240,5 +256,4 @@ fn history(seed: u64, payments: usize) {
         view.customer_message(&format!("{}.closing_message", tag), &cm, &exempt, &secrets, &reveal_close);
     }
     eng::note(&format!("C14: {} atoms in the merchant's view at the end", view.seen.len()));
-    eng::path_done();
 }
